@@ -287,13 +287,11 @@ class StmtMixin:
             return z3.Bool(self.ctx.fresh_name(name))
         if ops.is_intlike(v):
             return ops.int_var(self.ctx.fresh_name(name))
-        if isinstance(v, SymList):
-            return SymList(z3.Array(self.ctx.fresh_name(name + "$arr"), ops.int_sort(), ops.int_sort()),
-                           ops.int_var(self.ctx.fresh_name(name + "$len")))
-        if isinstance(v, list) and all(ops.is_intlike(x) for x in v):
-            # a concrete-length int list that the loop grows becomes a symbolic-length list
-            return SymList(z3.Array(self.ctx.fresh_name(name + "$arr"), ops.int_sort(), ops.int_sort()),
-                           ops.int_var(self.ctx.fresh_name(name + "$len")))
+        if isinstance(v, SymList) or (isinstance(v, list) and all(ops.is_intlike(x) for x in v)):
+            # (a concrete-length int list that the loop grows becomes a symbolic-length list)
+            ln = ops.int_var(self.ctx.fresh_name(name + "$len"))
+            self.ctx.assume(ln >= ops.int_const(0))       # type invariant of lists
+            return SymList(z3.Array(self.ctx.fresh_name(name + "$arr"), ops.int_sort(), ops.int_sort()), ln)
         if v is None:
             return None
         raise Unsupported("cannot havoc %s of type %s" % (name, type(v).__name__))
